@@ -144,6 +144,17 @@ pub fn deep_programs() -> Vec<Program> {
         let root = StructDecl::new(Trait::FromMeta, vec![Field::new("alpha_beta", Ty::Struct(1)), Field::new("gamma_x", Ty::OptU32)]);
         out.push(Program { decls: vec![Decl::Struct(root), Decl::Struct(mid), Decl::Struct(leaf)], root: 0, family: "deep same-name".into() });
     }
+    // many members: 9 and 17 (required / optional / multiple in rotation)
+    for n in [9usize, 17] {
+        let fields: Vec<Field> = (0..n)
+            .map(|i| {
+                let mut f = Field::new(&format!("f{}_x", (b'a' + i as u8) as char), if i % 3 == 1 { Ty::OptU32 } else { Ty::U32 });
+                f.multiple = i % 3 == 2;
+                f
+            })
+            .collect();
+        out.push(Program { decls: vec![Decl::Struct(StructDecl::new(Trait::FromMeta, fields))], root: 0, family: format!("deep many-members {n}") });
+    }
     // irregular member names under every case rule: leading underscore, digits next to the
     // separators, doubled underscore
     for rule in Rule::ALL {
@@ -427,6 +438,24 @@ pub fn enum_corpus(thorough: bool) -> Vec<Program> {
         for a in 0..N_VKINDS {
             out.extend(enum_program(&[a, (a + 4) % N_VKINDS, (a + 7) % N_VKINDS], (None, false, false, None)));
         }
+    }
+    // many variants: 9 and 17, styles in rotation (lookup tables, match arms and suggestion lists
+    // beyond the sizes of the exhaustive part)
+    for n in [9usize, 17] {
+        let variants: Vec<Variant> = (0..n)
+            .map(|i| Variant {
+                rust: format!("Var{}X", (b'A' + i as u8) as char),
+                rename: None,
+                skip: i % 7 == 6,
+                word: None,
+                body: match i % 3 {
+                    0 => VBody::Unit,
+                    1 => VBody::Newtype(Ty::U32),
+                    _ => VBody::Struct(vec![Field::new("x", Ty::U32), Field::new("y", Ty::OptU32)]),
+                },
+            })
+            .collect();
+        out.push(Program { decls: vec![Decl::Enum(EnumDecl { rule: None, from_word: false, from_none: false, allow_unknown: None, variants })], root: 0, family: format!("enum many-variants {n}") });
     }
     // irregular variant names under every case rule: underscores and digits inside, runs of capitals
     for rule in std::iter::once(None).chain(Rule::ALL.into_iter().filter(|r| *r != Rule::None).map(Some)) {
